@@ -10,6 +10,30 @@ package main
 //@   ensures schemaType == FloatType ==> res == "float64"
 //@   ensures schemaType != IntegerType && schemaType != FloatType ==> res == schemaType
 
-// Every run on the same input must produce the same bytes: nothing may be emitted from inside a loop over a map.
+// ---------------------------------------------------------------------------------------------
+// The emitted text as a function of the schema (C19). written(w) is the ghost text appended to a writer by
+// fmt.Fprintf/Fprint; sortedkey(m, i) is the i-th smallest key of the map m; str_title is the caser.
+// objsAcc(w, s, n): the text after the first n objects (in key order) have been handled, starting from w.
+// fieldsAcc(w, s, o, n): the text after the first n properties (in key order) of object o, starting from w.
+// ---------------------------------------------------------------------------------------------
+
+//@ spec ptype(tid string) string = tid == "integer" ? "int64" : (tid == "float" ? "float64" : tid)
+//@ spec ignoredObj(o string) bool = len(os.Args) > 2 && o == os.Args[2]
+//@ abstract objsAcc(w string, s schema, n int) string
+//@ abstract fieldsAcc(w string, s schema, o string, n int) string
+
+//@ axiom objsAcc0: forall w string, s schema :: objsAcc(w, s, 0) == w
+//@ axiom objsAccStep: forall w string, s schema, n int :: 1 <= n && n <= len(s.Steps.Create.Input.Objects) ==> objsAcc(w, s, n) == (ignoredObj(sortedkey(s.Steps.Create.Input.Objects, n-1)) ? objsAcc(w, s, n-1) : fieldsAcc(objsAcc(w, s, n-1) + sprintf1("\ntype %v struct {\n", str_title(sortedkey(s.Steps.Create.Input.Objects, n-1))), s, sortedkey(s.Steps.Create.Input.Objects, n-1), len(s.Steps.Create.Input.Objects[sortedkey(s.Steps.Create.Input.Objects, n-1)].Properties)) + "}\n")
+//@ axiom fieldsAcc0: forall w string, s schema, o string :: fieldsAcc(w, s, o, 0) == w
+//@ axiom fieldsAccStep: forall w string, s schema, o string, n int :: 1 <= n && n <= len(s.Steps.Create.Input.Objects[o].Properties) ==> fieldsAcc(w, s, o, n) == fieldsAcc(w, s, o, n-1) + sprintf3("\t%v %v `json:\"%v\"`\n", str_title(sortedkey(s.Steps.Create.Input.Objects[o].Properties, n-1)), ptype(s.Steps.Create.Input.Objects[o].Properties[sortedkey(s.Steps.Create.Input.Objects[o].Properties, n-1)].Type.TypeID == "ref" ? s.Steps.Create.Input.Objects[o].Properties[sortedkey(s.Steps.Create.Input.Objects[o].Properties, n-1)].Type.Id : s.Steps.Create.Input.Objects[o].Properties[sortedkey(s.Steps.Create.Input.Objects[o].Properties, n-1)].Type.TypeID), sortedkey(s.Steps.Create.Input.Objects[o].Properties, n-1))
+
+// Every run on the same input must produce the same bytes: nothing may be emitted from inside a loop over a map,
+// and the text written before formatting is objsAcc(<the two header lines>, schema, <number of objects>): one struct
+// per non-ignored object in key order, one tagged and typed field per property in key order.
 //@ func mustGenerateTypeDef(schema) -> res
 //@   deterministic
+//@   loop 2 invariant len(objectIDs) == len(schema.Steps.Create.Input.Objects) && (forall j int :: 0 <= j && j < len(objectIDs) ==> objectIDs[j] == sortedkey(schema.Steps.Create.Input.Objects, j))
+//@   loop 2 invariant written(bwt) == objsAcc(atloop(written(bwt)), schema, idx+1)
+//@   loop 4 invariant len(propertyIDs) == len(ov.Properties) && (forall j int :: 0 <= j && j < len(propertyIDs) ==> propertyIDs[j] == sortedkey(ov.Properties, j))
+//@   loop 4 invariant written(bwt) == fieldsAcc(atloop(written(bwt)), schema, o, idx+1)
+//@   checks exists w string :: written(bwt) == objsAcc(w, schema, len(schema.Steps.Create.Input.Objects))
